@@ -76,6 +76,14 @@ fn main() {
             println!("chunks written: {n}; chunks whose stored rows differ from the written rows: {altered}; first: {:?}; written: {:?}", first, want);
             0
         }
+        "audit-dump" => {
+            let prop = args.get(2).expect("property id");
+            let n: usize = args.get(3).and_then(|s| s.parse().ok()).unwrap_or(400);
+            match scen::get(prop) {
+                Some(def) => coord::audit_dump(def, n, seed),
+                None => 2,
+            }
+        }
         "audit" => {
             let prop = args.get(2).expect("property id");
             let n: usize = args.get(3).and_then(|s| s.parse().ok()).unwrap_or(400);
